@@ -130,6 +130,7 @@ def declare(reg, eng):
 
     # ---- file token
     TOKINV = ["self.infopath == self.path / 'token.info'", "not issymlink(self.infopath)"]
+    IN_IPC = "effect_with_arg('mutex.enter', 0, self.ipc_lock) and not effect_with_arg('mutex.exit', 0, self.ipc_lock)"
     reg.contract("TokenFile.create", params=["dependency"], types={"dependency": "CounterTokenDependency"}, returns="TokenFile",
                  requires=["isclass(dependency._token, CounterToken)", "not isnone(dependency.target)",
                            "not issymlink(dependency._token.path / dependency.name)"],
@@ -138,10 +139,10 @@ def declare(reg, eng):
                           ("C08", "isregular(result.path)"),
                           ("C08", "fs_text(result.path) == tokenfile_text(dependency.count, result.uri)"),
                           ("C08", "held(result.path) == dependency.count")],
-                 modifies=["fs(dependency._token.path / dependency.name)"])
+                 modifies=["fs(dependency._token.path / dependency.name)"], effect="tokenfile.create")
     reg.contract("TokenFile.delete", params=["self"], types={"self": "TokenFile"},
                  ensures=[("C09", "not isfile(self.path)")],
-                 modifies=["fs(self.path)"])
+                 modifies=["fs(self.path)"], effect="tokenfile.delete")
     reg.contract("CounterToken._update", params=["self"], types={"self": "CounterToken"},
                  requires=TOKINV + ["isfile(self.infopath)"],
                  ensures=[("C08", "self.available == self.total - disk_sum(self.path)"),
@@ -164,6 +165,9 @@ def declare(reg, eng):
                  raises={"LockError": {"when": [("C08", "int(old(fs_text(self.infopath))) - old(disk_sum(self.path)) < dependency.count")],
                                        "modifies": ["self.total", "self.available", "self.cache"]},
                          "Exception": {"when": [], "modifies": ["self.total", "self.available", "self.cache"]}},
+                 # the token file is created inside the inter-process critical section that read the directory (C08: two
+                 # processes must not both decide on the same snapshot)
+                 effect_guards={"tokenfile.create": [("C08", IN_IPC)]},
                  modifies=["self.total", "self.available", "self.cache", "dict(self.cache)", "fs(self.path / dependency.name)"])
     reg.contract("CounterToken.release", params=["self", "dependency"],
                  types={"self": "CounterToken", "dependency": "CounterTokenDependency"},
@@ -172,6 +176,7 @@ def declare(reg, eng):
                           ("C09", "disk_sum(self.path) == old(disk_sum(self.path)) - old(held(self.path / dependency.name))"),
                           ("C09", "implies(old(isregular(self.path / dependency.name)), effect('notify'))")],
                  raises={"Exception": {"when": [], "modifies": ["self.total", "self.available", "self.cache"]}},
+                 effect_guards={"tokenfile.delete": [("C08", IN_IPC)]},
                  modifies=["self.total", "self.available", "self.cache", "dict(self.cache)", "fs(self.path / dependency.name)"])
 
     # ---- lock adapters (behavioural subtyping: refine Lock._acquire / Lock._release)
